@@ -549,8 +549,12 @@ func (j *judge) paged(api string, pages []string) {
 	}
 	before := len(j.notes)
 	j.compareSeq(api, toks)
-	if len(pages) != len(j.expect) || (len(j.notes) == before && !multi) {
+	switch {
+	case len(pages) != len(j.expect):
 		j.flag("pagecount-mismatch", api, fmt.Sprintf("%d pages %s, want %d %s", len(pages), show(seq), len(j.expect), show(j.expect)))
+	case len(j.notes) == before && !multi:
+		// same tokens in the same order, but a token-free page (nav document) sits at another position
+		j.flag("wrong-order", api, fmt.Sprintf("pages %s, want %s", show(seq), show(j.expect)))
 	}
 }
 
